@@ -224,6 +224,38 @@ def rule_e(prog, rep):
             rep.violation('C09.e', f'{short(mod)}::load', f.loc, f'order ok={good}, operands from the loaded file={ops}',
                           key=f'C09.e/{mod}/apply')
     rep.floor('C09.e', n, 2, 'loaders applying registrations')
+    # every entry of the loaded lists is applied: one entry that cannot be applied must not stop the others
+    for fname, op, what in (('apply_grave_goods', f'{CORE}::pdelete', 'grave good'), ('apply_last_wills', f'{CORE}::set', 'last will')):
+        f = crate.fn(f'{CORE}::{fname}')
+        b = Bindings(crate, f)
+        loops = [nd for nd, a in crate.walk_fn(f) if nd.get('k') == 'for']
+        problems = []
+        if len(loops) != 1 or not all(x.startswith('param(') for x in b.origins(loops[0]['iter'])):
+            problems.append('no single loop over the given list')
+        else:
+            body = loops[0]['body']
+            exits = [nd.get('k') for nd, a in walk(body) if nd.get('k') in ('try', 'return', 'break') and
+                     not any(x.get('k') == 'closure' for x in a)]
+            if exits:
+                problems.append(f'the loop can be left early ({sorted(set(exits))}): an entry that cannot be applied stops the remaining ones')
+            ops_ = [nd for nd, a in walk(body) if nd.get('k') == 'call' and callee(nd) == op]
+            if len(ops_) != 1:
+                problems.append(f'{len(ops_)} calls of {short(op)} per entry')
+            else:
+                o = b.origins(ops_[0]['args'][1])
+                if not all('[*]' in x and x.startswith('param(') for x in o):
+                    problems.append(f'the applied operand is not the list element ({sorted(o)})')
+                if not any('INTERNAL_CLIENT_ID' in x for a_ in ops_[0]['args'][2:] for x in b.origins(a_)):
+                    problems.append('not applied with the internal client id')
+            # nothing before the loop may return
+            pre = [nd.get('k') for nd, a in crate.walk_fn(f) if nd.get('k') in ('try', 'return') and not any(x is loops[0] for x in a) and
+                   not any(x.get('k') == 'closure' for x in a)]
+            if pre:
+                problems.append('can return before the loop')
+        if problems:
+            rep.violation('C09.e', fname, f.loc, f'not every {what} is applied: ' + '; '.join(problems), key=f'C09.e/{fname}/' + '|'.join(p_.split(' (')[0] for p_ in problems))
+        else:
+            rep.ok('C09.e', fname, f.loc, f'every {what} of the list is applied with the internal id; a failing entry is skipped, not fatal')
 
 
 def rule_f(prog, rep):
@@ -254,6 +286,8 @@ def rule_g(prog, rep):
              'from one export() and into one slot - a flush that skips the registrations file leaves a stale one of an earlier '
              'flush in that slot, which the next load would apply')
     c10.rule_writes_both(prog, rep, 'C09.g')
+    # .. and each of the two writes really (re)writes data + checksum (= C10.f)
+    c10.rule_f(prog, Proxy(rep, 'C09.g'))
 
 
 RULES = [('C09.g', rule_g), ('C09.a', rule_a), ('C09.b', rule_b), ('C09.c', rule_c), ('C09.d', rule_d), ('C09.e', rule_e), ('C09.f', rule_f)]
